@@ -3,6 +3,7 @@ import Fdo.Cbor.Fuel
 import Fdo.Cbor.Footprint
 import Fdo.Cbor.TypedSuffix
 import Fdo.Cbor.TypedWF
+import Fdo.Cbor.WellFormedLimits
 import Fdo.Gen.Cbor
 /-
 C12 — CBOR decoding of arbitrary bytes is total, bounded and exact.
@@ -214,6 +215,26 @@ theorem decoders_agree_on_item_end (ok : CertOracle) (f d f' d' : Nat) (s s' : S
 theorem typed_and_structural_agree_on_item_end (ok : CertOracle) (f d f' d' : Nat) (s : Schema) (b : Bytes) (v : Val) (x : Item)
     (r r' : Bytes) (h1 : decodeS ok f d s b = some (v, r)) (h2 : decode f' d' b = some (x, r')) : r = r' :=
   (decodeS_wf ok f d s b v r h1).unique (decode_wf f' d' b x r' h2)
+
+/-- **A well-formed item within the documented limits is consumed exactly** — the clause of the property as
+it stands: if the stream starts with an item of the grammar in which no string is `maxLen` bytes or longer,
+no array has `maxLen` items or more, no map `maxLen/2` pairs or more and containers nest at most `maxDepth`
+deep (`WFL maxDepth 1 b r`), the decoder succeeds and leaves exactly what follows the item. -/
+theorem well_formed_item_consumed_exactly (b r : Bytes) (h : WFL maxDepth 1 b r) : ∃ v, decode1 b = some (v, r) :=
+  (decode1_iff_wfl b r).2 h
+
+/-- … and it accepts nothing else: the structural decoder is *characterised* by the grammar with limits. -/
+theorem accepts_exactly_the_well_formed_within_limits (b r : Bytes) :
+    (∃ v, decode1 b = some (v, r)) ↔ WFL maxDepth 1 b r := decode1_iff_wfl b r
+
+/-- the grammar with limits is the grammar, restricted -/
+theorem within_limits_is_well_formed (d n : Nat) (b r : Bytes) (h : WFL d n b r) : WFN n b r := h.wfn
+
+example (t : Bytes) : WFL maxDepth 1 ([0x82, 0x01, 0x41, 0x00] ++ t) t :=
+  .arr (d := 63) (ai := 2) (arg := 2) (r := [0x01, 0x41, 0x00] ++ t) (r1 := t) (by simp [decHead]) (by decide)
+    (.scalar (mt := 0) (ai := 1) (arg := 1) (r := [0x41, 0x00] ++ t) (by simp [decHead]) (by omega)
+      (.str (mt := 2) (ai := 1) (arg := 1) (r := [0x00] ++ t) (by simp [decHead]) (by omega) (by decide) (by simp) (by simpa using .zero)))
+    .zero
 
 /-- the grammar is not empty: `[1, h'00']` followed by anything is one item followed by that -/
 example (t : Bytes) : WF1 ([0x82, 0x01, 0x41, 0x00] ++ t) t :=
